@@ -16,6 +16,8 @@ import (
 	"runtime/debug"
 
 	"github.com/insomniacslk/dhcp/dhcpv4"
+	"github.com/insomniacslk/dhcp/dhcpv4/server4"
+	"github.com/insomniacslk/dhcp/dhcpv6/server6"
 	"github.com/insomniacslk/dhcp/dhcpv6"
 	"github.com/insomniacslk/dhcp/rfc1035label"
 )
@@ -123,7 +125,12 @@ func measure(entry string, in []byte) (alloc, retained int, ok bool) {
 		if err == nil {
 			val, ok = p, true
 			_ = p.ToBytes()
+			typedReads4(p) // DHCPv4 option values are decoded when they are read: every typed value once (printing is not part of it)
 		}
+	case "v4srv", "v6srv":
+		// the same datagram through the library's own receive path: a server with the default (silent) logger and a handler
+		// that answers nothing - what the datagram costs there is what decoding it costs
+		ok = throughServer(entry == "v4srv", buf)
 	case "label":
 		l, err := rfc1035label.FromBytes(buf)
 		if err == nil {
@@ -139,6 +146,100 @@ func measure(entry string, in []byte) (alloc, retained int, ok bool) {
 		retained += spanBytes()
 	}
 	return
+}
+
+func typedReads4(p *dhcpv4.DHCPv4) {
+	p.BroadcastAddress()
+	p.RequestedIPAddress()
+	p.ServerIdentifier()
+	p.Router()
+	p.ClasslessStaticRoute()
+	p.NTPServers()
+	p.NetBIOSNameServers()
+	p.DNS()
+	p.DomainName()
+	p.HostName()
+	p.RootPath()
+	p.BootFileNameOption()
+	p.TFTPServerName()
+	p.ClassIdentifier()
+	p.ClientArch()
+	p.DomainSearch()
+	p.IPv6OnlyPreferred()
+	p.MaxMessageSize()
+	p.AutoConfigure()
+	p.MessageType()
+	p.Message()
+	p.ParameterRequestList()
+	p.RelayAgentInfo()
+	p.SubnetMask()
+	p.UserClass()
+	p.VIVC()
+	p.IPAddressLeaseTime(0)
+	p.IPAddressRenewalTime(0)
+	p.IPAddressRebindingTime(0)
+	p.GetOneOption(dhcpv4.OptionClientIdentifier)
+}
+
+// oneShotConn hands out one datagram and then blocks until it is closed
+type oneShotConn struct {
+	b      []byte
+	given  bool
+	second chan struct{} // closed when the server comes back for the next datagram
+	closed chan struct{}
+}
+
+func (c *oneShotConn) ReadFrom(b []byte) (int, net.Addr, error) {
+	if !c.given {
+		c.given = true
+		return copy(b, c.b), &net.UDPAddr{IP: net.ParseIP("fe80::9"), Port: 546}, nil
+	}
+	close(c.second)
+	<-c.closed
+	return 0, nil, net.ErrClosed
+}
+func (c *oneShotConn) WriteTo(b []byte, a net.Addr) (int, error) { return len(b), nil }
+func (c *oneShotConn) Close() error {
+	select {
+	case <-c.closed:
+	default:
+		close(c.closed)
+	}
+	return nil
+}
+func (c *oneShotConn) LocalAddr() net.Addr                { return &net.UDPAddr{Port: 547} }
+func (c *oneShotConn) SetDeadline(time.Time) error      { return nil }
+func (c *oneShotConn) SetReadDeadline(time.Time) error  { return nil }
+func (c *oneShotConn) SetWriteDeadline(time.Time) error { return nil }
+
+// throughServer: one datagram through server4 / server6 (default logger); reports whether the handler was called
+func throughServer(v4 bool, in []byte) bool {
+	conn := &oneShotConn{b: in, second: make(chan struct{}), closed: make(chan struct{})}
+	handled := make(chan struct{}, 1)
+	done := make(chan struct{})
+	if v4 {
+		srv, err := server4.NewServer("", nil, func(net.PacketConn, net.Addr, *dhcpv4.DHCPv4) { handled <- struct{}{} }, server4.WithConn(conn))
+		if err != nil {
+			panic(err)
+		}
+		go func() { srv.Serve(); close(done) }()
+	} else {
+		srv, err := server6.NewServer("", nil, func(net.PacketConn, net.Addr, dhcpv6.DHCPv6) { handled <- struct{}{} }, server6.WithConn(conn))
+		if err != nil {
+			panic(err)
+		}
+		go func() { srv.Serve(); close(done) }()
+	}
+	<-conn.second // the datagram has been dealt with (handed to a handler goroutine, or skipped)
+	ok := false
+	select {
+	case <-handled:
+		ok = true
+	case <-time.After(200 * time.Millisecond):
+	}
+	conn.Close()
+	<-done
+	return ok
 }
 
 // measureChild runs the measurement in a child process (own heap, hard time limit): a decode that does
@@ -519,6 +620,51 @@ func costFamilies(rng *rand.Rand, n int) []struct {
 		c4 = append(c4, 255)
 		out = append(out, fam{"v4-repeated-tiny-option", "v4", c4, 1})
 	}
+	// F6b: one typed DHCPv4 option that fills the datagram (its value continued over as many instances as it takes) with as
+	// many of its smallest elements as fit, in the orders a list can have: all alike, one kind after the other, alternating
+	{
+		long4 := func(name string, code byte, val []byte) {
+			room := n - len(stdHeader4()) - 1
+			b4 := append([]byte{}, stdHeader4()...)
+			for len(val) > 0 && room >= 3 {
+				k := len(val)
+				if k > 255 {
+					k = 255
+				}
+				if k+2 > room {
+					k = room - 2
+				}
+				b4 = append(append(b4, code, byte(k)), val[:k]...)
+				val = val[k:]
+				room -= k + 2
+			}
+			out = append(out, fam{name, "v4", append(b4, 255), 1})
+		}
+		budget := n - len(stdHeader4()) - 1
+		budget -= (budget/255 + 1) * 2
+		if budget > 16 {
+			rep := func(el []byte, total int) []byte {
+				var v []byte
+				for len(v)+len(el) <= total {
+					v = append(v, el...)
+				}
+				return v
+			}
+			dflt, spec := []byte{0, 10, 0, 0, 1}, []byte{24, 10, 9, 8, 10, 0, 0, 2} // a default route; a /24
+			long4("v4-routes-defaults", 121, rep(dflt, budget))
+			long4("v4-routes-specific", 121, rep(spec, budget))
+			long4("v4-routes-defaults-then-specific", 121, append(rep(dflt, budget/2), rep(spec, budget/2)...))
+			long4("v4-routes-specific-then-defaults", 121, append(rep(spec, budget/2), rep(dflt, budget/2)...))
+			long4("v4-routes-alternating", 121, rep(append(append([]byte{}, dflt...), spec...), budget))
+			long4("v4-router-list", 3, rep([]byte{10, 0, 0, 1}, budget))
+			long4("v4-user-class-items", 77, rep([]byte{1, 'x'}, budget))
+			long4("v4-vivc-items", 124, rep([]byte{0, 0, 0, 9, 1, 'x'}, budget))
+			long4("v4-request-list", 55, rep([]byte{1, 3, 6, 15}, budget))
+			long4("v4-arch-list", 93, rep([]byte{0, 7}, budget))
+			long4("v4-agent-suboptions", 82, rep([]byte{1, 1, 'c'}, budget))
+			long4("v4-search-list-roots", 119, rep([]byte{1, 'a', 0}, budget))
+		}
+	}
 	// F7: ordinary messages padded with opaque options to size n
 	{
 		w := randMsg6(rng, 2, rng.Intn(3)).ToBytes()
@@ -668,6 +814,15 @@ func genC09(o *Out, rng *rand.Rand, tier string) {
 			o.Emit(map[string]any{"op": "Cost", "family": "small-after-" + f.name, "entry": f.entry, "n": len(tgt), "depth": 2, "accepted": ok,
 				"allocKiB": (alloc + 1023) / 1024, "retainedKiB": (retained + 1023) / 1024, "killed": killed}, "history-"+f.name, append(append([]byte{}, tgt...), f.in...), ok || killed)
 		}
+	}
+	// the witnesses that fit the servers' read buffer, through the servers' receive paths
+	for _, f := range costFamilies(rng, 4096) {
+		if len(f.in) > 4096 || f.entry == "label" {
+			continue
+		}
+		alloc, _, ok, killed := measureChild(f.entry+"srv", f.in)
+		o.Emit(map[string]any{"op": "Cost", "family": f.name, "via": "server", "entry": f.entry + "srv", "n": len(f.in), "depth": f.depth, "accepted": ok,
+			"allocKiB": (alloc + 1023) / 1024, "retainedKiB": 0, "killed": killed}, "server-"+f.name, append([]byte("srv"), f.in...), ok || killed)
 	}
 	for _, n := range sizes {
 		for r := 0; r < reps; r++ {
